@@ -419,6 +419,23 @@ func vConnSet(nc net.Conn, key string, val bool) {
 	}
 }
 
+// ---- threads / gates (native: real goroutines) ----
+type vGateT struct {
+	name string
+	ch   chan struct{}
+	once sync.Once
+}
+
+func vGate(name string) *vGateT       { return &vGateT{name: name, ch: make(chan struct{})} }
+func vGateOpen(g *vGateT)             { g.once.Do(func() { close(g.ch) }) }
+func vGateWait(g *vGateT)             { <-g.ch }
+func vQuiesce()                       { time.Sleep(100 * time.Millisecond) }
+func vYield()                         { time.Sleep(time.Millisecond) }
+func vBlockedThreads() int            { return -1 }
+func vSchedFork(level int)            {}
+func vPreemptBudget(n int)            {}
+func vTrack(p interface{}, name string) {}
+
 // Run-level environment (listener / accept scripts): engine only.
 func vEnvSet(key string, val bool)              {}
 func vEnvAccept(nc net.Conn)                    {}
